@@ -1,12 +1,223 @@
 import FatVerif.Model.Util
 import FatVerif.Model.Basic
-/-! pure-probe driver for suite `Lfn` — STUB, to be replaced (see /verif/ARCH.md). -/
+import FatVerif.Model.Lfn
+import FatVerif.Spec.DirSpec
+/-!
+pure-probe driver for suite `lfn` (see /verif/ARCH.md).
+
+Probes
+* `lfn.generate <alloc 0|1> <units-hex4> <chk> => <slot-hex32,…|-> | PANIC`
+  (`fatfs::verif_dir::lfn_generate`: `LfnBuffer::from_ucs2_units` → `as_ucs2_units` → `LfnEntriesGenerator` → `serialize`)
+* `lfn.readdir <alloc 0|1> <root|sub> <slot-hex32,…|-> => <n> <entry;entry;…|-> <vol> | PANIC | ERR <code>`
+  The slots are planted at the start of the root directory region (`root`) resp. of a cluster-chain sub-directory
+  (`sub`) of a FAT12 image; the implementation's answer comes from `Dir::iter()` and the public accessors of `DirEntry`.
+  `entry` = ten fields joined by `:`
+    1. `short_file_name_as_bytes()` hex (`-` if empty)
+    2. `attributes().bits()` decimal
+    3. `is_dir()` `is_file()` as two characters `0`/`1`
+    4. `len()` decimal
+    5. `created()`   `y.m.d.h.mi.s.ms`
+    6. `accessed()`  `y.m.d`
+    7. `modified()`  `y.m.d.h.mi.s.ms`
+    8. `long_file_name_as_ucs2_units()` hex4 (`-` if `None`)
+    9. `file_name()` UTF-8 hex        (`-` if empty or in a build without `alloc`)
+   10. `short_file_name()` UTF-8 hex  (`-` if empty or in a build without `alloc`)
+  `vol` = `read_volume_label_from_root_dir_as_bytes()` as `none`/hex11 for `root`, `-` for `sub`.
+* `lfn.range <alloc 0|1> <slot-hex32,…> => <begin:end,begin:end,…|->`
+  `offset_range / 32` of every entry, observed through `Dir::remove` (which marks exactly that range deleted).
+-/
 namespace FatVerif.LfnDriver
+open FatVerif FatVerif.Util FatVerif.Lfn
 
-def handle (_fn : String) (_args : List String) : Option String := none
+def dot (l : List Nat) : String := ".".intercalate (l.map toString)
 
-def oracle (_fn : String) (_args : List String) (_implOut : List String) : Option String := none
+def scalarsToHex (cs : List Nat) : String :=
+  hexOfBytes (utf8OfString (String.ofList (cs.map Char.ofNat)))
 
-def branch (_fn : String) (_args : List String) : String := "-"
+def showEntry (alloc : Bool) (e : LfnEntry) : String :=
+  let s := e.sfn
+  let (cy, cm, cd) := dateDecode (unitAt s 16)
+  let (ch, cmi, cs, cms) := timeDecode (unitAt s 14) (byte s 13)
+  let (ay, am, ad) := dateDecode (unitAt s 18)
+  let (my, mm, md) := dateDecode (unitAt s 24)
+  let (mh, mmi, ms, mms) := timeDecode (unitAt s 22) 0
+  let fname :=
+    if !alloc then "-"
+    else match e.longName with
+      | some u => scalarsToHex (utf16Lossy u)
+      | none => scalarsToHex ((lowercaseNameBytes s).map oemDecode)
+  let sname := if !alloc then "-" else scalarsToHex ((shortNameBytes (sfnName s)).map oemDecode)
+  ":".intercalate [
+    hexOfBytes (shortNameBytes (sfnName s)),
+    toString (attrs s),
+    showBool (isDir s) ++ showBool (!isDir s),
+    toString (fileSize s),
+    dot [cy, cm, cd, ch, cmi, cs, cms],
+    dot [ay, am, ad],
+    dot [my, mm, md, mh, mmi, ms, mms],
+    (match e.longName with | some u => hexOfUnits u | none => "-"),
+    fname, sname]
+
+def showEntries (alloc : Bool) (es : List LfnEntry) : String :=
+  if es.isEmpty then "-" else ";".intercalate (es.map (showEntry alloc))
+
+def handleReaddir (alloc : Bool) (place : String) (slots : List (List Nat)) : String :=
+  match readDirEntries? alloc true slots with
+  | none => "PANIC"
+  | some es =>
+    let vol :=
+      if place = "root" then
+        match readVolumeLabel alloc slots with
+        | none => "none"
+        | some n => hexOfBytes n
+      else "-"
+    s!"{es.length} {showEntries alloc es} {vol}"
+
+def showRanges (es : List LfnEntry) : String :=
+  if es.isEmpty then "-" else ",".intercalate (es.map fun e => s!"{e.beginIdx}:{e.endIdx}")
+
+def handle (fn : String) (args : List String) : Option String :=
+  match fn, args with
+  | "lfn.generate", [a, u, c] => do
+    let alloc ← boolOf a
+    let units ← unitsOfHex u
+    let chk ← natOf c
+    match lfnGenerateVia alloc units chk with
+    | none => some "PANIC"
+    | some slots => some (hexOfBytesList slots)
+  | "lfn.readdir", [a, place, sl] => do
+    let alloc ← boolOf a
+    let slots ← bytesListOfHex sl
+    some (handleReaddir alloc place slots)
+  | "lfn.range", [a, sl] => do
+    let alloc ← boolOf a
+    let slots ← bytesListOfHex sl
+    match readDirEntries? alloc true slots with
+    | none => some "PANIC"
+    | some es => some (showRanges es)
+  | _, _ => none
+
+/-! ### oracles on the implementation's output -/
+
+/-- field 8 (long units) of every entry token; `none` if the output is not well formed -/
+def implNames (entries : String) : Option (List (List Nat)) :=
+  if entries = "-" then some [] else
+  (entries.splitOn ";").mapM fun tok =>
+    match tok.splitOn ":" with
+    | [_, _, _, _, _, _, _, u, _, _] => unitsOfHex u
+    | _ => none
+
+inductive Verdict where
+  | ok | tooLong | foreign | ignored | ffffLost
+  deriving DecidableEq
+
+def Verdict.rank : Verdict → Nat
+  | .ok => 0 | .ffffLost => 1 | .ignored => 2 | .foreign => 3 | .tooLong => 4
+
+/-- verdict on one returned long name `l` (`[]` = none returned) against the specification's entry -/
+def judge (l : List Nat) (e : DirSpec.SpecEntry) : Verdict :=
+  match e.run with
+  | none => if l.isEmpty then .ok else .foreign
+  | some r =>
+    let implConv := DirSpec.dropTrailingPads r
+    let specName := DirSpec.nameOf r
+    if l = specName ∨ l = implConv then
+      if l.length > 255 then .tooLong
+      -- the implementation's strip-all convention is accepted, except when a legitimately trailing U+FFFF is lost (F12)
+      else if l ≠ specName ∧ DirSpec.wellPadded r ∧ specName.length ≤ 255 then .ffffLost
+      else .ok
+    else if l.isEmpty then .ignored
+    else .foreign
+
+def worst (vs : List (Nat × Verdict)) : Option (Nat × Verdict) :=
+  vs.foldl (fun acc v =>
+    match acc with
+    | none => if v.2 = .ok then none else some v
+    | some a => if v.2.rank > a.2.rank then some v else some a) none
+
+def oracleReaddir (slots : List (List Nat)) (implOut : List String) : Option String :=
+  match implOut with
+  | ["PANIC"] => some "C17 diriter-panic -"
+  | "ERR" :: c :: _ => some s!"C17 diriter-error code={c}"
+  | [n, entries, _vol] =>
+    match implNames entries with
+    | none => some "C17 malformed-output -"
+    | some names =>
+      let spec := DirSpec.specEntries true slots
+      if names.length ≠ spec.length ∨ toString names.length ≠ n then
+        some s!"C17 entry-count impl={names.length} spec={spec.length}"
+      else
+        let vs := (List.range names.length).map fun i =>
+          (i, match names[i]?, spec[i]? with
+              | some l, some e => judge l e
+              | _, _ => Verdict.ok)
+        match worst vs with
+        | none => none
+        | some (i, .tooLong) => some s!"C17 name-too-long entry={i} units={(names.getD i []).length}"
+        | some (i, .foreign) => some s!"C17 foreign-or-partial-name entry={i} units={(names.getD i []).length}"
+        | some (i, .ignored) => some s!"C17 valid-run-ignored entry={i}"
+        | some (i, .ffffLost) => some s!"C15 trailing-ffff-lost entry={i}"
+        | some (_, .ok) => none
+  | _ => some "C17 malformed-output -"
+
+/-- C03.4 on the implementation's slots: they parse (by the specification's backward scan) as one complete set
+    carrying `chk` whose name is the input -/
+def oracleGenerate (units : List Nat) (chk : Nat) (implOut : List String) : Option String :=
+  match implOut with
+  | ["PANIC"] => if units.length ≤ 260 then some "C19 generate-panic -" else none
+  | [sl] =>
+    match bytesListOfHex sl with
+    | none => some "C03 malformed-output -"
+    | some slots =>
+      if units.isEmpty then (if slots.isEmpty then none else some "C03 lfn-run-malformed nonempty-for-empty-name")
+      else if units.length > 255 ∨ units.any (· == 0) then none
+      else if slots.any (fun s => s.length ≠ 32 ∨ DirSpec.b s 11 ≠ 0x0F ∨ DirSpec.b s 12 ≠ 0 ∨ DirSpec.w s 26 ≠ 0) then
+        some "C03 lfn-run-malformed fixed-fields"
+      else
+        match DirSpec.specRun chk slots.reverse 1 [] with
+        | none => some "C03 lfn-run-malformed incomplete"
+        | some r =>
+          if DirSpec.nameOf r = units ∧ DirSpec.wellPadded r ∧ r.length = 13 * slots.length then none
+          else some "C03 lfn-run-malformed name"
+  | _ => some "C03 malformed-output -"
+
+def oracle (fn : String) (args : List String) (implOut : List String) : Option String :=
+  match fn, args with
+  | "lfn.readdir", [_, _, sl] =>
+    match bytesListOfHex sl with
+    | some slots => oracleReaddir slots implOut
+    | none => none
+  | "lfn.generate", [_, u, c] =>
+    match unitsOfHex u, natOf c with
+    | some units, some chk => oracleGenerate units chk implOut
+    | _, _ => none
+  | "lfn.range", _ =>
+    match implOut with
+    | ["PANIC"] => some "C17 diriter-panic range"
+    | _ => none
+  | _, _ => none
+
+def branch (fn : String) (args : List String) : String :=
+  match fn, args with
+  | "lfn.generate", [a, u, _] =>
+    match unitsOfHex u with
+    | some units =>
+      let n := units.length
+      s!"a{a}/" ++ (if n = 0 then "empty" else if n % 13 = 0 then "full" else "padded") ++
+        (if n > 255 then "/over255" else "")
+    | none => "-"
+  | "lfn.readdir", [a, place, sl] =>
+    match boolOf a, bytesListOfHex sl with
+    | some alloc, some slots =>
+      let es := readDirEntries alloc true slots
+      let anyLong := es.any fun e => !e.units.isEmpty
+      let anyLfn := slots.any fun s => slotClass s == .lfn
+      let noEnd := (slots.all fun s => slotClass s != .endMark) &&
+        (if place = "root" then slots.length == 64 else slots.length % 16 == 0 && slots.length > 0)
+      s!"a{a}/{place}/" ++ (if anyLong then "long" else if anyLfn then "fallback" else "plain") ++
+        (if noEnd then "/eof" else "/endmark") ++ (if cleanStarts false slots then "/clean" else "/restart")
+    | _, _ => "-"
+  | "lfn.range", [a, _] => s!"a{a}"
+  | _, _ => "-"
 
 end FatVerif.LfnDriver
